@@ -8,7 +8,7 @@ claimed = [c["property_id"] for c in json.load(open(f"{V}/MANIFEST.json"))["chec
 only = sys.argv[1:]
 rows = []
 # a scratch worktree of /repo HEAD: /repo itself is never touched (other work may be using it)
-WT = "/tmp/mutmatrix_wt"
+WT = f"/tmp/mutmatrix_wt.{os.getpid()}"
 subprocess.run(["git", "-C", "/repo", "worktree", "remove", "--force", WT], capture_output=True)
 subprocess.run(["git", "-C", "/repo", "worktree", "add", "-q", "--detach", WT, "HEAD"], check=True)
 for name in sorted(os.listdir(f"{V}/seeded")):
